@@ -187,6 +187,9 @@ def run(ctx):
     )
     ctx.trusted = ["harness/evidence.py planting", "harness/project.py structural projection", "TLC"]
     ctx.assumptions = ["cases with > 5000 candidate multisets are skipped and counted, never passed"]
+    # design level: on noise-free evidence of every admissible multiset of a small catalogue the planted multiset
+    # is admissible, scores 0 and is optimal; zero-score multisets explain the same variants; gap monotone
+    ctx.mc("mc/MC_MajorModel", label="MC_MajorModel(planted x perturbations)", workers=8)
     tasks = []
     for j in range(12 if quick else 60):
         tasks.append(("toy", rng.choice(["hg19", "hg38"]), rng.randrange(1 << 30), 100 if quick else 200, "noisy"))
